@@ -17,10 +17,10 @@ int main(int argc, char **argv) {
             if (!take(key)) continue; if (deadline()) break; current(key);
             SH() = Shared();   // each scenario starts from empty shared inputs (the explorer gets that from fork-per-execution)
             sc.prepare(); int n = sc.nthreads; std::vector<std::string> refs(n), outs(n);
-            for (int t = 0; t < n; t++) refs[t] = sc.work(t);
+            if (sc.after_run) sc.after_run(); for (int t = 0; t < n; t++) refs[t] = sc.work(t);
             if (sc.before_run) sc.before_run();
             for (int rep = 0; rep < (quick() ? 3 : 20); rep++) { std::vector<std::thread> ts; if (rep && sc.before_run) sc.before_run();
-                for (int t = 0; t < n; t++) ts.emplace_back([&, t] { outs[t] = sc.work(t); }); for (auto &t : ts) t.join();
+                for (int t = 0; t < n; t++) ts.emplace_back([&, t] { outs[t] = sc.work(t); }); for (auto &t : ts) t.join(); if (sc.after_run) sc.after_run();
                 for (int t = 0; t < n; t++) if (outs[t] != refs[t]) { violation(key, fmt("free-running repetition %d: thread %d output differs from its sequential reference", rep, t)); rep = 1000; break; }
                 eval(1); }
             nontrivial(1); outcome(mix(fnv(refs[0].data(), 32), T));
